@@ -115,7 +115,7 @@ fn run_scripted(bytes: &[u8], at: Option<(usize, Answer)>, words: bool) -> Resul
             let w = bytes_to_words(bytes);
             binary::parse_words(&w, &mut c)
         } else {
-            binary::parse_bytes(bytes, &mut c)
+            binary::parse_bytes(crate::rs::Shifted::new(bytes).bytes(), &mut c)
         };
         (c.log, r)
     })
